@@ -37,6 +37,7 @@ func (db *DB) Backup(path string) error {
 		}
 	}
 	db.mu.RUnlock()
+	verifYield(db, "backup:captured")
 
 	srcFS := db.opts.FileSystem
 	dstFS := fs.Sub(db.opts.rootFS, path)
@@ -70,6 +71,7 @@ func (db *DB) Backup(path string) error {
 		if err := dstFile.Close(); err != nil {
 			return err
 		}
+		verifYield(db, "backup:segment")
 	}
 
 	if err := touchFile(dstFS, lockName); err != nil {
